@@ -388,4 +388,31 @@ theorem fitter_replace_preserves (S : Schema) (doc doc' : Node) (f t : Nat) (sl 
   respects_replace S doc doc' f t sl F T sl' b
     (fitter_respects S doc f t sl _ hft hwf h (fun _ _ _ _ _ _ _ he => by cases he)) ha
 
+/-- **`delete_range` as a whole** (`deleteRangeStep` = widening by `delete_range`, then
+    `replace_step` with the empty slice, tied exactly on the recorded step): the step it records
+    respects the request `delete_range(f, t)` was given — unconditionally for a replace step, with
+    the residual hypothesis of `fitter_respects` for a replace-around step -/
+theorem deleteRange_fitted_respects (S : Schema) (doc : Node) (f t : Nat) (st : Step) (hft : f ≤ t)
+    (h : deleteRangeStep S doc f t = .ok (some st))
+    (htail : ∀ F T G1 G2 sl' ins b, st = .replaceAround F T G1 G2 sl' ins b →
+      noText ((sliceToks' sl').drop ins) = true) :
+    respects (ftoks doc.kids) f t Slice.empty st = true := by
+  unfold deleteRangeStep at h
+  split at h
+  · simp [throw, throwThe, MonadExceptOf.throw] at h
+  · rename_i a b htg
+    obtain ⟨h1, h2, _⟩ := deleteRange_extends_structurally S doc f t a b htg
+    have hm := fitter_respects S doc a b Slice.empty st (by omega) (by decide) h htail
+    exact deleteRange_respects S doc f t a b st hft htg hm
+
+/-- … hence **`delete_range` removes exactly the text inside `[f, t)` and adds none**, whenever
+    the step it records is a replace step and applies — no monitored hypothesis left -/
+theorem deleteRange_fitted_text (S : Schema) (doc doc' : Node) (f t F T : Nat) (sl' : Slice) (b : Bool)
+    (hft : f ≤ t) (h : deleteRangeStep S doc f t = .ok (some (.replace F T sl' b)))
+    (ha : S.apply (.replace F T sl' b) doc = .ok doc') :
+    textUnits (ftoks doc'.kids) =
+      textUnits ((ftoks doc.kids).take f) ++ textUnits ((ftoks doc.kids).drop t) :=
+  respects_delete_text S doc doc' f t F T sl' b
+    (deleteRange_fitted_respects S doc f t _ hft h (fun _ _ _ _ _ _ _ he => by cases he)) ha
+
 end PM.C11
